@@ -64,6 +64,55 @@ def setup(root):
     # instrumentation is switched on only for the duration of a threaded run
     from engines import threadsim
     threadsim.install_dormant(m)
+    import copy
+    del _MODULE_STATE[:], _MODULE_CACHES[:]
+    for name, val in list(vars(m).items()):
+        if name.startswith('__'):
+            continue
+        if type(val) in (dict, list, set):
+            _MODULE_STATE.append((val, copy.copy(val)))
+        elif callable(getattr(val, 'cache_clear', None)):
+            _MODULE_CACHES.append(val)
+
+
+_MODULE_STATE = []      # (container, pristine copy) for every mutable module-level container of ioutils
+_MODULE_CACHES = []     # module-level functions with an lru_cache
+
+
+def _reset_module_state():
+    """A run is a function of its case: whatever the module remembers between calls (memo tables, caches) is put
+    back to its state at import before every case; histories that matter are part of the case itself."""
+    for cont, pristine in _MODULE_STATE:
+        if cont != pristine:
+            if isinstance(cont, list):
+                cont[:] = pristine
+            else:
+                cont.clear()
+                cont.update(pristine)
+    for fn in _MODULE_CACHES:
+        fn.cache_clear()
+
+
+class DualFile:
+    """One wrapper class for text-mode and binary-mode files (what tempfile.NamedTemporaryFile, SpooledTemporaryFile
+    or codecs.StreamReaderWriter are): only the instance knows which it is."""
+
+    def __init__(self, inner):
+        self._f = inner
+        if isinstance(inner, io.StringIO):
+            self.encoding = 'utf-8'
+
+    def read(self, *a):
+        return self._f.read(*a)
+
+    def seek(self, *a):
+        return self._f.seek(*a)
+
+    def tell(self):
+        return self._f.tell()
+
+    def close(self):
+        self._f.close()
 
 
 class _OsProxy:
@@ -149,7 +198,7 @@ def gen_case(rng, tier):
         if r < 0.04 and ops:
             # several appending writes through writelines(), from a list or from a one-shot generator
             ops.append(['writelines', [_chunk(rng, text, rng.choice([0, 1, 3, 7])) for _ in range(rng.randint(0, 4))],
-                        rng.choice(['list', 'gen', 'tuple'])])
+                        rng.choice(['list', 'gen', 'tuple', 'list', 'gen', 'tuple', 'bad_last', 'gen_raises'])])
         elif r < 0.28 or not ops:
             n = rng.choice([0, 1, 2, 3, 5, 9, 17]) if rng.random() < 0.9 else rng.randint(20, 60)
             ops.append(['write', _chunk(rng, text, n)])
@@ -220,7 +269,7 @@ def _gen_mfr(rng):
     if rng.random() < 0.02:
         k = rng.choice([300, 1100, 2500])              # scale: very many (mostly empty or tiny) members
     cuts = sorted(rng.randint(0, content_len) for _ in range(k - 1))
-    kinds = [rng.choice(['io', 'spooled', 'spooled-rolled', 'io', 'spooled', 'spooled-rolled', 'nested'])
+    kinds = [rng.choice(['io', 'spooled', 'spooled-rolled', 'io', 'spooled', 'spooled-rolled', 'nested', 'dual'])
              for _ in range(k)] if k <= 5 else ['io'] * k      # 'nested': the member is itself a MultiFileReader
     ops = []
     for _ in range(rng.randint(1, 10)):
@@ -233,6 +282,8 @@ def _gen_mfr(rng):
             ops.append(['seek0'])
     case = {'mode': 'mfr-text' if text else 'mfr-bytes', 'content': content, 'cuts': cuts, 'kinds': kinds,
             'ops': ops, 'bufsize': rng.choice([1, 8, 8192])}
+    if rng.random() < 0.25:
+        case['prior_reader'] = True
     if rng.random() < 0.2 and k <= 5:
         # the members were just written/partly read by the caller: they are not at position 0, and the
         # documented way to start over is seek(0)
@@ -288,6 +339,21 @@ def _do(f, op, text, ref_len):
             return ('ok', f.write(data))
         if name == 'writelines':
             items = [x if text else bytes.fromhex(x) for x in op[1]]
+            if op[2] in ('bad_last', 'gen_raises'):
+                # an argument that fails part-way: like io, the lines before the failure are written
+                if op[2] == 'bad_last':
+                    arg = items + [None]
+                else:
+                    def arg():
+                        for x in items:
+                            yield x
+                        raise LookupError('line source failed')
+                    arg = arg()
+                try:
+                    f.writelines(arg)
+                except (TypeError, LookupError) as e:
+                    return ('exc', type(e).__name__)          # (the message differs between io and the spooled classes)
+                return ('ok', 'writelines() accepted a failing argument')
             arg = items if op[2] == 'list' else (tuple(items) if op[2] == 'tuple' else (x for x in items))
             return ('ok', f.writelines(arg))
         if name == 'read':
@@ -420,6 +486,7 @@ def _run_threads(case):
 
 
 def run_case(case):
+    _reset_module_state()
     if case['mode'].startswith('threads'):
         return _run_threads(case)
     if case['mode'].startswith('mfr'):
@@ -489,7 +556,11 @@ def run_case(case):
                     rp['rolled_at'] = i
                     if i > 0:
                         out.probe('rollover_mid_history')
-                if name in ('write', 'writelines'):
+                if name == 'writelines' and op[2] in ('bad_last', 'gen_raises'):
+                    if got != want:
+                        return _fail(out, log, 'spooled-diverges', i, case, ri, op, got, want, steps)
+                    out.probe('writelines_argument_fails_part_way')
+                elif name in ('write', 'writelines'):
                     if got[0] != 'ok':
                         return _fail(out, log, 'spooled-diverges', i, case, ri, op, got, want, steps)
                     if ri and got != first_write:
@@ -619,9 +690,22 @@ def _run_mfr(case):
     _install(sim, case.get('bufsize', 8192))
     members = []
     nested_objs = []
+    if case.get('prior_reader'):
+        # history: the process built (and used) a reader over members of the same classes in the *other* mode before
+        try:
+            prior = iou.MultiFileReader(DualFile(io.BytesIO(b'earlier') if text else io.StringIO('earlier')),
+                                        io.BytesIO(b' reader') if text else io.StringIO(' reader'))
+            prior.read()
+        except Exception as e:
+            out.fail('mfr-wrong', 0, 'an earlier MultiFileReader over %s members raised %r' % ('bytes' if text else 'text', e),
+                     mode=case['mode'], op='init')
+            return out
+        out.probe('reader_of_the_other_mode_built_before')
     for part, kind in zip(parts, kinds):
         if kind == 'io':
             m = io.StringIO(part) if text else io.BytesIO(part)
+        elif kind == 'dual':
+            m = DualFile(io.StringIO(part) if text else io.BytesIO(part))
         elif kind == 'nested' and not text:
             h = len(part) // 2
             subs = [io.BytesIO(part[:h]), io.BytesIO(part[h:])]
